@@ -43,3 +43,43 @@ mod verif_c03_content {
     #[kani::unwind(5)]
     fn c03_content_n3() { content_case::<3>(); }
 }
+
+// C03 — the Source forwarding impls (&S, Box<S>, Arc<S>) hand id and extension through unchanged.
+#[cfg(kani)]
+mod verif_c03_wrappers {
+    use crate::source::{DirEntry, FileContent, Source};
+    use std::cell::Cell;
+    use std::io;
+
+    struct Rec { read_ok: Cell<bool>, dir_ok: Cell<bool>, ex_ok: Cell<bool> }
+    impl Source for Rec {
+        fn read(&self, id: &str, ext: &str) -> io::Result<FileContent> { self.read_ok.set(id == "ab" && ext == "x"); Err(io::Error::from(io::ErrorKind::NotFound)) }
+        fn read_dir(&self, id: &str, _f: &mut dyn FnMut(DirEntry)) -> io::Result<()> { self.dir_ok.set(id == "ab"); Ok(()) }
+        fn exists(&self, e: DirEntry) -> bool { self.ex_ok.set(e == DirEntry::File("ab", "x")); true }
+    }
+    fn rec() -> Rec { Rec { read_ok: Cell::new(false), dir_ok: Cell::new(false), ex_ok: Cell::new(false) } }
+    fn drive<S: Source>(s: &S) {
+        let r = s.read("ab", "x");
+        std::mem::forget(r);
+        let _ = s.read_dir("ab", &mut |_| ());
+        assert!(s.exists(DirEntry::File("ab", "x")));
+    }
+    fn check(r: &Rec) {
+        assert!(r.read_ok.get(), "a Source wrapper changed the id / extension of a read");
+        assert!(r.dir_ok.get() && r.ex_ok.get(), "a Source wrapper changed the argument of read_dir / exists");
+    }
+
+    // @h name=c03_source_wrappers_forward tier=quick timeout=600
+    #[kani::proof]
+    #[kani::unwind(5)]
+    fn c03_source_wrappers_forward() {
+        let which: u8 = kani::any();
+        kani::assume(which < 3);
+        match which {
+            0 => { let r = rec(); drive(&&r); check(&r); }
+            1 => { let b = Box::new(rec()); drive(&b); check(&b); std::mem::forget(b); }
+            _ => { let a = std::sync::Arc::new(rec()); drive(&a); check(&a); std::mem::forget(a); }
+        }
+        kani::cover!(which == 2);
+    }
+}
